@@ -48,6 +48,11 @@ func init() {
 				c.MaxPaths = 20000
 				out = append(out, c)
 			}
+			for n := 1; n <= maxVals; n++ {
+				c := cs("H_C19_JsonStruct", n)
+				c.Cert, c.TrackMem = true, true
+				out = append(out, c)
+			}
 			out = append(out, cs("H_C19_ReadFromFile"))
 			return out
 		},
